@@ -13,6 +13,8 @@ from harness.wire import LexError
 
 PROP = "C09"
 LEVEL = "exploration"
+TECHNIQUE = 'differential execution (hostile vs innocuous text) + independent comment stripper per style'
+LEVEL_TEXT = 'Held on hostile text classes x 9 comment styles x all text entry points.'
 RULE = ("hostile texts (LF, CR, CRLF, VT/FF/NEL/LS/PS, every opening and closing delimiter, the configured "
         "delimiter itself, G-code payloads, %, {} format fields, non-ASCII, blank, long) x 9 comment styles "
         "x entry points comment(msg,*args) / annotate / comment= of move, rapid, move_absolute, "
